@@ -5,7 +5,7 @@ Text layer: `sdpunmarshaler.Unmarshal` applied to pion's `Marshal` output (for t
 -/
 namespace Rtsp.Sdp
 
-def Ascii (s : Str) : Prop := ∀ c ∈ s, isAscii c = true
+abbrev Ascii (s : Str) : Prop := ∀ c ∈ s, isAscii c = true
 
 theorem all_ascii {s : Str} (h : Ascii s) : s.all isAscii = true := by
   rw [List.all_eq_true]; exact h
@@ -92,14 +92,14 @@ theorem ascii_renderAttr (a : Attr) (h : WfAttr a) : Ascii (renderAttr a) := by
 
 /-- an `a=` line in session position (after `t=` or after another session attribute) -/
 theorem step_session_attr (st : St) (hst : st = .session ∨ st = .time) (d : Doc) (a : Attr) (h : WfAttr a) :
-    stepLine st d (b!"a=" ++ renderAttr a) = .ok (.session, { d with attrs := d.attrs ++ [a] }) := by
+    stepLine st d (attrLine a) = .ok (.session, { d with attrs := d.attrs ++ [a] }) := by
   have hasc := all_ascii (ascii_renderAttr a h)
   rcases hst with rfl | rfl <;>
-    simp [stepLine, opaqueKey, hasc, sessionLine, parseAttr_render a h]
+    simp [attrLine, stepLine, opaqueKey, hasc, keyLine, sessionLine, parseAttr_render a h]
 
 theorem run_session_attrs (st : St) (hst : st = .session ∨ st = .time) (d : Doc) (as : List Attr) (h : ∀ a ∈ as, WfAttr a)
     (rest : List Str) :
-    runLines st d (as.map (fun a => b!"a=" ++ renderAttr a) ++ rest)
+    runLines st d (as.map attrLine ++ rest)
       = runLines (if as.isEmpty then st else .session) { d with attrs := d.attrs ++ as } rest := by
   induction as generalizing st d with
   | nil => simp
@@ -109,5 +109,214 @@ theorem run_session_attrs (st : St) (hst : st = .session ∨ st = .time) (d : Do
     simp only
     rw [ih .session (Or.inl rfl) _ (fun x hx => h x (by simp [hx]))]
     cases as <;> simp
+
+end Rtsp.Sdp
+
+namespace Rtsp.Sdp
+
+/-! ### media descriptions -/
+
+theorem protoOk_spec {p : Str} (h : protoOk p = true) : (47 : UInt8) ∉ p ∧ NoSp p ∧ p ≠ [] ∧ Ascii p := by
+  simp only [protoOk, Bool.or_eq_true, decide_eq_true_eq] at h
+  rcases h with ((((((((((rfl | rfl) | rfl) | rfl) | rfl) | rfl) | rfl) | rfl) | rfl) | rfl) | rfl) <;>
+    (refine ⟨by decide, ?_, by decide, ?_⟩ <;> (intro c hc; revert c; decide))
+
+theorem ascii_join (sep : Str) (hs : Ascii sep) (ps : List Str) (h : ∀ p ∈ ps, Ascii p) : Ascii (joinWith sep ps) := by
+  induction ps with
+  | nil => intro c hc; simp [joinWith] at hc
+  | cons p ps ih =>
+    cases ps with
+    | nil => simpa [joinWith] using h p (by simp)
+    | cons q qs =>
+      rw [joinWith_cons_cons]
+      intro c hc
+      simp only [List.mem_append] at hc
+      rcases hc with (hc | hc) | hc
+      · exact h p (by simp) c hc
+      · exact hs c hc
+      · exact ih (fun x hx => h x (by simp [hx])) c hc
+
+theorem parseMediaLine_render (m : MediaD) (h : WfMedia m) :
+    parseMediaLine (renderMediaName m) = some { m with attrs := [] } := by
+  have hmne : m.media ≠ [] := by
+    intro e
+    have := h.type_ok
+    rw [e] at this
+    revert this; decide
+  have hp : ∀ p ∈ m.protos, (47 : UInt8) ∉ p ∧ NoSp p ∧ p ≠ [] ∧ Ascii p := fun p hp => protoOk_spec (h.protos_ok p hp)
+  have hpj_nosp : NoSp (joinWith [47] m.protos) := noSp_join_slash _ (fun p hp' => (hp p hp').2.1)
+  have hpj_ne : joinWith [47] m.protos ≠ [] := by
+    apply join_ne_nil
+    cases hps : m.protos with
+    | nil => exact absurd hps h.protos_ne
+    | cons p ps => exact ⟨p, by simp, (hp p (by rw [hps]; simp)).2.2.1⟩
+  have h0 : NoSp [48] := by intro c hc; simp only [List.mem_singleton] at hc; subst hc; decide
+  have hf : fields (renderMediaName m) = m.media :: [48] :: joinWith [47] m.protos :: m.fmts := by
+    unfold renderMediaName
+    have e : m.media ++ b!" 0 " ++ joinWith [47] m.protos ++ 32 :: joinWith [32] m.fmts
+        = m.media ++ 32 :: ([48] ++ 32 :: (joinWith [47] m.protos ++ 32 :: joinWith [32] m.fmts)) := by simp
+    rw [e, fields_word_sp hmne h.type_nosp, fields_word_sp (by simp) h0, fields_word_sp hpj_ne hpj_nosp,
+      fields_join _ (fun f hf => ⟨(h.fmts_ok f hf).1, (h.fmts_ok f hf).2.1⟩)]
+  have hsplit : splitOn 47 (joinWith [47] m.protos) = m.protos := splitOn_join 47 _ h.protos_ne (fun p hp' => (hp p hp').1)
+  have hall : m.protos.all protoOk = true := by rw [List.all_eq_true]; exact h.protos_ok
+  have hport : portOk [48] = true := by decide
+  obtain ⟨media, protos, fmts, attrs⟩ := m
+  cases fmts with
+  | nil => exact absurd rfl h.fmts_ne
+  | cons f fs =>
+    simp only at hf hsplit hall
+    simp [parseMediaLine, hf, h.type_ok, hport, hsplit, hall]
+
+theorem ascii_renderMediaName (m : MediaD) (h : WfMedia m) : Ascii (renderMediaName m) := by
+  unfold renderMediaName
+  intro c hc
+  simp only [List.mem_append, List.mem_cons] at hc
+  rcases hc with ((hc | hc) | hc) | rfl | hc
+  · exact h.type_ascii c hc
+  · rcases hc with rfl | rfl | rfl | hc <;> first | decide | (simp at hc)
+  · exact ascii_join [47] (by intro c hc; simp only [List.mem_singleton] at hc; subst hc; decide) _
+      (fun p hp => (protoOk_spec (h.protos_ok p hp)).2.2.2) c hc
+  · decide
+  · exact ascii_join [32] (by intro c hc; simp only [List.mem_singleton] at hc; subst hc; decide) _
+      (fun f hf => (h.fmts_ok f hf).2.2) c hc
+
+/-- an `m=` line after the session part, after `t=`, or after another media -/
+theorem step_media_name (st : St) (hst : st = .session ∨ st = .time ∨ st = .media) (d : Doc) (m : MediaD) (h : WfMedia m) :
+    stepLine st d (mediaNameLine m) = .ok (.media, { d with medias := d.medias ++ [{ m with attrs := [] }] }) := by
+  have hasc := all_ascii (ascii_renderMediaName m h)
+  rcases hst with rfl | rfl | rfl <;>
+    simp [mediaNameLine, stepLine, opaqueKey, hasc, keyLine, sessionLine, mediaLine, parseMediaLine_render m h]
+
+theorem step_media_attr (d : Doc) (ms : List MediaD) (m0 : MediaD) (hd : d.medias = ms ++ [m0]) (a : Attr) (h : WfAttr a) :
+    stepLine .media d (attrLine a)
+      = .ok (.media, { d with medias := ms ++ [{ m0 with attrs := m0.attrs ++ [a] }] }) := by
+  have hasc := all_ascii (ascii_renderAttr a h)
+  simp [attrLine, stepLine, opaqueKey, hasc, keyLine, mediaLine, parseAttr_render a h, addMediaAttr, hd]
+
+theorem run_media_attrs (d : Doc) (ms : List MediaD) (m0 : MediaD) (hd : d.medias = ms ++ [m0]) (as : List Attr)
+    (h : ∀ a ∈ as, WfAttr a) (rest : List Str) :
+    runLines .media d (as.map attrLine ++ rest)
+      = runLines .media { d with medias := ms ++ [{ m0 with attrs := m0.attrs ++ as }] } rest := by
+  induction as generalizing d m0 with
+  | nil => simp [← hd]
+  | cons a as ih =>
+    simp only [List.map_cons, List.cons_append, runLines]
+    rw [step_media_attr d ms m0 hd a (h a (by simp))]
+    simp only
+    rw [ih _ { m0 with attrs := m0.attrs ++ [a] } rfl (fun x hx => h x (by simp [hx]))]
+    simp
+
+theorem run_media (st : St) (hst : st = .session ∨ st = .time ∨ st = .media) (d : Doc) (m : MediaD) (h : WfMedia m)
+    (rest : List Str) :
+    runLines st d (renderMediaLines m ++ rest) = runLines .media { d with medias := d.medias ++ [m] } rest := by
+  simp only [renderMediaLines, List.cons_append, runLines]
+  rw [step_media_name st hst d m h]
+  simp only
+  rw [run_media_attrs _ d.medias { m with attrs := [] } rfl m.attrs h.attrs_ok]
+  simp
+
+theorem run_medias (st : St) (hst : st = .session ∨ st = .time ∨ st = .media) (d : Doc) (ms : List MediaD)
+    (h : ∀ m ∈ ms, WfMedia m) :
+    runLines st d (ms.flatMap renderMediaLines) = .ok { d with medias := d.medias ++ ms } := by
+  induction ms generalizing st d with
+  | nil => simp [runLines]
+  | cons m ms ih =>
+    simp only [List.flatMap_cons]
+    rw [run_media st hst d m (h m (by simp))]
+    rw [ih .media (Or.inr (Or.inr rfl)) _ (fun x hx => h x (by simp [hx]))]
+    simp
+
+/-! ### the header and the whole document -/
+
+theorem origin_fixed : originOk b!"- 0 0 IN IP4 127.0.0.1" = true := by decide
+theorem conn_unicast : connOk b!"IN IP4 0.0.0.0" = .ok () := by decide
+theorem conn_multicast : connOk b!"IN IP4 224.1.0.0" = .ok () := by decide
+theorem timing_fixed : timingOk b!"0 0" = true := by decide
+
+theorem run_header (mc : Bool) (name : Str) (rest : List Str) :
+    runLines .initial Doc.empty (headerLines mc name ++ rest) = runLines .time { Doc.empty with name := name } rest := by
+  cases mc <;>
+    simp [headerLines, runLines, stepLine, opaqueKey, isAscii, keyLine, sessionLine, origin_fixed, conn_unicast, conn_multicast,
+      timing_fixed, Res.bind, Doc.empty]
+
+/-- **Text layer round trip**: `sdpunmarshaler.Unmarshal` of the text that pion's `Marshal` writes for a
+well-formed document (as `Session.Marshal` builds them) is that document. -/
+theorem parse_render (mc : Bool) (d : Doc) (h : WfDoc d) : parse (render mc d) = .ok d := by
+  have hlines : ∀ l ∈ renderLines mc d, NoNL l ∧ l ≠ [] := by
+    intro l hl
+    simp only [renderLines, List.mem_append, List.mem_map, List.mem_flatMap] at hl
+    rcases hl with (hl | ⟨a, ha, rfl⟩) | ⟨m, hm, hl⟩
+    · simp only [headerLines, List.mem_cons, List.not_mem_nil, or_false] at hl
+      rcases hl with rfl | rfl | rfl | rfl | rfl
+      · exact ⟨by intro c hc; revert c; decide, by decide⟩
+      · exact ⟨by intro c hc; revert c; decide, by decide⟩
+      · refine ⟨?_, by simp⟩
+        intro c hc
+        simp only [List.mem_cons] at hc
+        rcases hc with rfl | rfl | hc
+        · decide
+        · decide
+        · exact h.name_nonl c hc
+      · cases mc <;> exact ⟨by intro c hc; revert c; decide, by decide⟩
+      · exact ⟨by intro c hc; revert c; decide, by decide⟩
+    · refine ⟨?_, by simp [attrLine]⟩
+      intro c hc
+      simp only [attrLine, List.mem_cons] at hc
+      rcases hc with rfl | rfl | hc
+      · decide
+      · decide
+      · exact noNL_renderAttr a (h.attrs_ok a ha) c hc
+    · simp only [renderMediaLines, List.mem_cons, List.mem_map] at hl
+      have hw := h.medias_ok m hm
+      rcases hl with rfl | ⟨a, ha, rfl⟩
+      · refine ⟨?_, by simp [mediaNameLine]⟩
+        intro c hc
+        simp only [mediaNameLine, List.mem_cons] at hc
+        rcases hc with rfl | rfl | hc
+        · decide
+        · decide
+        · -- no white space other than blanks in the media name line; blanks are not CR / LF
+          have hasc := ascii_renderMediaName m hw
+          unfold renderMediaName at hc
+          simp only [List.mem_append, List.mem_cons] at hc
+          have nl_of_nosp : ∀ {w : Str}, NoSp w → ∀ c ∈ w, c ≠ 10 ∧ c ≠ 13 := by
+            intro w hw' c hc'
+            have := hw' c hc'
+            constructor <;> (intro e; subst e; revert this; decide)
+          rcases hc with ((hc | hc) | hc) | rfl | hc
+          · exact nl_of_nosp hw.type_nosp c hc
+          · rcases hc with rfl | rfl | rfl | hc <;> first | decide | (simp at hc)
+          · exact nl_of_nosp (noSp_join_slash _ (fun p hp => (protoOk_spec (hw.protos_ok p hp)).2.1)) c hc
+          · decide
+          · -- formats joined by blanks
+            have : ∀ (fs : List Str), (∀ f ∈ fs, NoSp f) → ∀ c ∈ joinWith [32] fs, c ≠ 10 ∧ c ≠ 13 := by
+              intro fs
+              induction fs with
+              | nil => intro _ c hc; simp [joinWith] at hc
+              | cons f fs ih =>
+                intro hfs c hc
+                cases fs with
+                | nil => exact nl_of_nosp (hfs f (by simp)) c (by simpa [joinWith] using hc)
+                | cons g gs =>
+                  rw [joinWith_cons_cons] at hc
+                  simp only [List.mem_append, List.mem_singleton] at hc
+                  rcases hc with (hc | rfl) | hc
+                  · exact nl_of_nosp (hfs f (by simp)) c hc
+                  · decide
+                  · exact ih (fun x hx => hfs x (by simp [hx])) c hc
+            exact this m.fmts (fun f hf => (hw.fmts_ok f hf).2.1) c hc
+      · refine ⟨?_, by simp [attrLine]⟩
+        intro c hc
+        simp only [attrLine, List.mem_cons] at hc
+        rcases hc with rfl | rfl | hc
+        · decide
+        · decide
+        · exact noNL_renderAttr a (hw.attrs_ok a ha) c hc
+  unfold parse render
+  rw [linesOf_flat _ hlines]
+  unfold renderLines
+  rw [List.append_assoc, run_header, run_session_attrs .time (Or.inr rfl) _ d.attrs h.attrs_ok]
+  rw [run_medias _ (by cases d.attrs <;> simp) _ d.medias h.medias_ok]
+  simp [Doc.empty]
 
 end Rtsp.Sdp
